@@ -6,37 +6,39 @@ package cluster_info
 // ---- C10: queue graph -----------------------------------------------------------------------
 // What snapshotQueues hands over: every entry is a non-nil QueueInfo stored under its own UID
 // (so distinct keys hold distinct objects).
+//@ define nonNil(qs map[common_info.QueueID]*queue_info.QueueInfo) bool = forall k in qs :: qs[k] != nil
 //@ define keyed(qs map[common_info.QueueID]*queue_info.QueueInfo) bool = forall k in qs :: qs[k] != nil && qs[k].UID == k
 //@ define noChildren(qs map[common_info.QueueID]*queue_info.QueueInfo) bool = forall k in qs :: len(qs[k].ChildQueues) == 0
 // C10 "missing parents": every queue's parent is "" or a queue of the map (orphans pruned)
 //@ define wfParents(qs map[common_info.QueueID]*queue_info.QueueInfo) bool = forall k in qs :: qs[k].ParentQueue == "" || qs[k].ParentQueue in qs
 // every listed child id exists
 //@ define childrenExist(qs map[common_info.QueueID]*queue_info.QueueInfo) bool = forall k in qs :: forall i int :: 0 <= i && i < len(qs[k].ChildQueues) ==> qs[k].ChildQueues[i] in qs
-// a listed child that exists names the lister as its parent (preserved by deletions)
-//@ define childPar(qs map[common_info.QueueID]*queue_info.QueueInfo) bool = forall k in qs :: forall i int :: 0 <= i && i < len(qs[k].ChildQueues) && qs[k].ChildQueues[i] in qs ==> qs[qs[k].ChildQueues[i]].ParentQueue == k
-// a queue whose parent exists is listed by that parent (preserved by deletions)
+// a listed child that exists names the lister (whose id is not "") as its parent (preserved by deletions)
+//@ define childPar(qs map[common_info.QueueID]*queue_info.QueueInfo) bool = forall k in qs :: forall i int :: 0 <= i && i < len(qs[k].ChildQueues) && qs[k].ChildQueues[i] in qs ==> qs[qs[k].ChildQueues[i]].ParentQueue == k && k != ""
+// a queue whose (non-empty) parent exists is listed by that parent (preserved by deletions)
 //@ define childComplete(qs map[common_info.QueueID]*queue_info.QueueInfo) bool = forall c in qs :: qs[c].ParentQueue != "" && qs[c].ParentQueue in qs ==> queue_info.isChild(qs[qs[c].ParentQueue], c)
 
+// Deletes queueID and everything listed (transitively) under it; nothing else. A deleted queue other
+// than queueID had a parent that is deleted too; no surviving queue loses an existing parent.
 //@ func deleteQueueAndChildren
 //@   props C10
-//@   note recursion: govc checks the recursive call against this contract (partial correctness); termination of the recursion is NOT checked (no function-level decreases). It holds when queueID's parent is absent from the map (the only call site): the parent function is single-valued, so the descendants of a queue that is nobody's child form a tree.
-//@   requires keyed(queues) && childPar(queues) && childComplete(queues)
+//@   note recursion: the recursive call is checked against this contract (partial correctness). Termination of the recursion is NOT claimed: it needs a rank that decreases from a queue to its listed children, i.e. acyclicity of the child lists below queueID. At the only call site queueID is an orphan (its parent is absent), and since ParentQueue is single-valued the queues below an orphan form a tree.
+//@   requires nonNil(queues) && childPar(queues) && childComplete(queues)
 //@   modifies queues[*]
 //@   loop 1
 //@     invariant 0 - 1 <= rangeindex && rangeindex < len(queue.ChildQueues)
 //@     invariant forall k in queues :: old(k in queues) && queues[k] == old(queues[k])
-//@     invariant keyed(queues) && childPar(queues) && childComplete(queues)
 //@     invariant forall m map[common_info.QueueID]*queue_info.QueueInfo :: m != queues && old(allocated(m)) ==> dom(m) == old(dom(m))
 //@     invariant forall m map[common_info.QueueID]*queue_info.QueueInfo, k common_info.QueueID :: m != queues && old(allocated(m)) && old(k in m) ==> m[k] == old(m[k])
+//@     invariant forall j int :: 0 <= j && j < len(queue.ChildQueues) && queue.ChildQueues[j] in queues ==> queues[queue.ChildQueues[j]].ParentQueue == queueID && queueID != ""
 //@     invariant forall j int :: 0 <= j && j <= rangeindex ==> !(queue.ChildQueues[j] in queues)
-//@     invariant forall k common_info.QueueID :: old(k in queues) && !(k in queues) ==> old(queues[k]).ParentQueue == queueID || !(old(queues[k]).ParentQueue in queues)
-//@     invariant forall k in queues :: old(queues[k].ParentQueue in queues) && queues[k].ParentQueue != queueID ==> queues[k].ParentQueue in queues
+//@     invariant forall k common_info.QueueID :: old(k in queues) && !(k in queues) ==> old(queues[k]).ParentQueue != "" && (old(queues[k]).ParentQueue == queueID || !(old(queues[k]).ParentQueue in queues))
+//@     invariant forall k in queues :: queues[k].ParentQueue != "" && old(queues[k].ParentQueue in queues) && queues[k].ParentQueue != queueID ==> queues[k].ParentQueue in queues
 //@     decreases len(queue.ChildQueues) - rangeindex
 //@   ensures [deleted] !(queueID in queues)
 //@   ensures [onlyDeletes] forall k in queues :: old(k in queues) && queues[k] == old(queues[k])
-//@   ensures [deletedHaveDeletedParent] forall k common_info.QueueID :: old(k in queues) && !(k in queues) ==> k == queueID || !(old(queues[k]).ParentQueue in queues)
-//@   ensures [noNewOrphans] forall k in queues :: old(queues[k].ParentQueue in queues) ==> queues[k].ParentQueue in queues
-//@   ensures [shape] keyed(queues) && childPar(queues) && childComplete(queues)
+//@   ensures [deletedHaveDeletedParent] forall k common_info.QueueID :: old(k in queues) && !(k in queues) ==> k == queueID || (old(queues[k]).ParentQueue != "" && !(old(queues[k]).ParentQueue in queues))
+//@   ensures [noNewOrphans] forall k in queues :: queues[k].ParentQueue != "" && old(queues[k].ParentQueue in queues) ==> queues[k].ParentQueue in queues
 //@ end
 
 // C10: "missing parents or queues": after the pass every remaining queue has parent "" or a parent
@@ -45,11 +47,10 @@ package cluster_info
 // malformed objects are still scheduled").
 //@ func cleanQueueOrphans
 //@   props C10
-//@   requires keyed(queues) && childPar(queues) && childComplete(queues) && childrenExist(queues)
+//@   requires nonNil(queues) && childPar(queues) && childComplete(queues) && childrenExist(queues)
 //@   modifies queues[*]
 //@   loop 1
 //@     invariant forall k in queues :: old(k in queues) && queues[k] == old(queues[k])
-//@     invariant keyed(queues) && childPar(queues) && childComplete(queues)
 //@     invariant childrenExist(queues)
 //@     invariant forall m map[common_info.QueueID]*queue_info.QueueInfo :: m != queues && old(allocated(m)) ==> dom(m) == old(dom(m))
 //@     invariant forall m map[common_info.QueueID]*queue_info.QueueInfo, k common_info.QueueID :: m != queues && old(allocated(m)) && old(k in m) ==> m[k] == old(m[k])
@@ -59,5 +60,4 @@ package cluster_info
 //@   ensures [childrenPresent] childrenExist(queues)
 //@   ensures [onlyDeletes] forall k in queues :: old(k in queues) && queues[k] == old(queues[k])
 //@   ensures [onlyOrphansPruned] forall k common_info.QueueID :: old(k in queues) && !(k in queues) ==> old(queues[k]).ParentQueue != "" && !(old(queues[k]).ParentQueue in queues)
-//@   ensures [shape] keyed(queues) && childPar(queues) && childComplete(queues)
 //@ end
